@@ -317,6 +317,15 @@ pub fn builder_body(t: &BType, obs: &mut Obs, docs_feature: bool) -> Result<(), 
     let src = t.source(docs_feature);
     let out = farm::compile(&a, &src, true)?;
     if !out.success {
+        // Every generated chain follows the documented typestate order and compiles on a tree where
+        // the builders are intact. A type error at a builder call means the builders reject a
+        // valid sequence of calls; anything else (a typo-class error) is the generator's fault.
+        let codes = out.error_codes();
+        let typo = codes.iter().any(|c| ["E0412", "E0425", "E0432", "E0433", "E0061", "E0107"].contains(&c.as_str()));
+        let type_error = codes.iter().any(|c| ["E0599", "E0308", "E0271", "E0277", "E0631", "E0282", "E0283", "E0284"].contains(&c.as_str()));
+        if type_error && !typo {
+            return obs.fail_sig("builder-rejects-valid-chain", format!("a builder chain that follows the documented typestate order does not compile: {} || {}", out.summary(), src.lines().filter(|l| l.contains("let t")).collect::<Vec<_>>().join(" ").chars().take(400).collect::<String>()));
+        }
         return Err(format!("harness bug: builder chain does not compile: {}", out.summary()));
     }
     let run = farm::run(out.bin.as_ref().unwrap(), &[], Duration::from_secs(20))?;
